@@ -194,6 +194,7 @@ def op_minify(req):
                     res['strict_diff'] = first_diff(a, b)
     except BaseException as e:   # noqa
         res['outcome'] = 'raise:' + exc_name(e)
+        res['syntaxerr'] = isinstance(e, SyntaxError)
         res['msg'] = str(e)[:200] if not PY2 else repr(e)[:200]
     return res
 
